@@ -943,11 +943,11 @@ func c14Gen(rng *kit.Rand, g c14GenOpts, k *c14Know, n int) c14In {
 	}
 	w := rng.Intn(100)
 	switch {
-	case w < 28:
+	case w < 26:
 		in.Kind = "write"
 		in.Cas = cas()
 		in.Data = map[string]string{"id": id, "w": id}
-	case w < 38:
+	case w < 40:
 		in.Kind = "patch"
 		in.Cas = cas()
 		in.Data = map[string]string{"id": id}
@@ -1051,7 +1051,7 @@ func TestVerif_C14_Sequential(t *testing.T) {
 	defer r.Write(t)
 	for _, tx := range []bool{false, true} {
 		e := c14Boot(t, tx, false)
-		for c := 0; c < kit.N(40, 250); c++ {
+		for c := 0; c < kit.N(100, 300); c++ {
 			caseID := fmt.Sprintf("seq:%v:s%d:%d", tx, shard, c)
 			if !kit.WantCase(caseID) {
 				continue
@@ -1466,6 +1466,16 @@ type c14Plan struct {
 	pureCas  bool // scenario is a pure CAS race: exactly one writer must win
 }
 
+// c14Grace: while replaying a single case in a fresh (cold) process a request may need
+// longer than the default 5ms to reach its first gate point; a longer grace keeps the
+// scripted schedule from diverging. It only affects which schedule is seen.
+func c14Grace() time.Duration {
+	if kit.OnlyCase() != "" {
+		return 150 * time.Millisecond
+	}
+	return 0
+}
+
 func (e *c14Env) gateFilter() func(kit.Event) bool {
 	return func(ev kit.Event) bool {
 		return strings.HasPrefix(ev.Key, e.prefix) || ev.Txn != 0
@@ -1547,7 +1557,7 @@ func c14RunConcurrent(e *c14Env, r *kit.Result, caseID string, seed int64, strea
 		for ci := range reqs {
 			reqs[ci] = kit.Req{Tag: tags[ci], Fn: clientFn(ci)}
 		}
-		sched = e.v.Probe.RunGated(reqs, pol, kit.GateOpts{Filter: e.gateFilter(), Hard: 90 * time.Second})
+		sched = e.v.Probe.RunGated(reqs, pol, kit.GateOpts{Filter: e.gateFilter(), Hard: 90 * time.Second, Grace: c14Grace()})
 	} else {
 		var wg sync.WaitGroup
 		start := make(chan struct{})
@@ -1671,7 +1681,7 @@ func c14GenPlan(rng *kit.Rand, withFault bool) c14Plan {
 	if withFault {
 		pl.faultCl = 1 + rng.Intn(pl.nclients)
 		pl.faultW = 1 + rng.Intn(2)
-		pl.faultN = 1 + rng.Intn(7)
+		pl.faultN = 1 + rng.Intn(5)
 	}
 	return pl
 }
@@ -1708,6 +1718,9 @@ func c14Scens() []c14Scen {
 		{"patch-write-cas", c14Cfg{}, two, func(p string) [][]c14In {
 			return [][]c14In{{c14Patch(p, 2, "x")}, {c14W(p, 2, "y"), rd(p, 0)}}
 		}, false},
+		{"patch-patch-read", c14Cfg{}, two, func(p string) [][]c14In {
+			return [][]c14In{{c14Patch(p, 2, "x")}, {c14Patch(p, -1, "y")}, {rd(p, 0), rd(p, 3)}}
+		}, false},
 		{"prune-read", c14Cfg{MaxV: 2}, two, func(p string) [][]c14In {
 			return [][]c14In{{c14W(p, -1, "x")}, {rd(p, 1), rd(p, 3)}, {c14W(p, -1, "y")}}
 		}, false},
@@ -1730,7 +1743,7 @@ func TestVerif_C14_Gated(t *testing.T) {
 	seed := kit.Seed(14)
 	shard := c14ShardOf()
 	_, nshards := kit.Shard()
-	r := kit.NewResult(t, "c14-gated", seed, "concurrent clients under the storage-operation gate (gate points: every storage operation under the kv mount's physical prefix and every transaction begin/operation/commit of the tagged clients), transactional and non-transactional store: (a) eleven fixed 2-3 client scenarios on one path (CAS races incl. cas=0 on a new key and under cas_required, write/write/read, write/delete, patch/write, pruning/read, destroy/patch, metadata put/write, undelete/delete/write, metadata delete/write) enumerated depth-first with <=2 preemptions (run cap), (b) generated workloads of 3-6 clients, 20-40 operations over 2-3 paths under seeded PCT schedules (depth 3), a third of them with one storage fault inside a write; each history (+ sequential preamble and final read-back of metadata and every version) is checked by porcupine per path against the versioned-register model, plus direct counters (no duplicate version, no gap, one winner per cas value); non-trivial = operations of different clients on the same path overlapped in time and a write succeeded; distinct by (operation/response sequence, storage-op order hash)")
+	r := kit.NewResult(t, "c14-gated", seed, "concurrent clients under the storage-operation gate (gate points: every storage operation under the kv mount's physical prefix and every transaction begin/operation/commit of the tagged clients), transactional and non-transactional store: (a) twelve fixed 2-3 client scenarios on one path (CAS races incl. cas=0 on a new key and under cas_required, write/write/read, write/delete, patch/write, patch/patch, pruning/read, destroy/patch, metadata put/write, undelete/delete/write, metadata delete/write) enumerated depth-first with <=2 preemptions (run cap) and run under uniformly random schedules, (b) generated workloads of 3-6 clients, 20-40 operations over 2-3 paths under seeded PCT schedules (depth 3 and 12) and uniformly random schedules, a quarter of them with one storage fault inside a write; each history (+ sequential preamble and final read-back of metadata and every version) is checked by porcupine per path against the versioned-register model, plus direct counters (no duplicate version, no gap, one winner per cas value); non-trivial = operations of different clients on the same path overlapped in time and a write succeeded; distinct by (operation/response sequence, storage-op order hash)")
 	defer r.Write(t)
 	for _, tx := range []bool{false, true} {
 		e := c14Boot(t, tx, false)
@@ -1752,7 +1765,7 @@ func TestVerif_C14_Gated(t *testing.T) {
 				if si%nshards != shard {
 					continue
 				}
-				ex := &kit.Explorer{MaxPreempt: 2, MaxRuns: kit.N(10, 120)}
+				ex := &kit.Explorer{MaxPreempt: 2, MaxRuns: kit.N(20, 150)}
 				stop := false
 				ex.Explore(func(pol kit.Policy) (kit.Schedule, bool) {
 					s, cont := c14RunScen(e, r, seed, sc, si, pol)
@@ -1768,20 +1781,44 @@ func TestVerif_C14_Gated(t *testing.T) {
 				}
 			}
 		}
+		// (a') the same scenarios under uniformly random schedules (the depth-first
+		// enumeration spends its run cap on late preemption points)
+		for si, sc := range scens {
+			for k := 0; k < kit.N(12, 40); k++ {
+				caseID := fmt.Sprintf("rnd:%v:%d:s%d:%d", tx, si, shard, k)
+				if !kit.WantCase(caseID) {
+					continue
+				}
+				prng := kit.NewRand(seed, uint64(shard*100000+si*1000+k)*2+b2u14(tx)+5_000_000)
+				if _, cont := c14RunScenID(e, r, seed, sc, si, kit.RandomPolicy{Rng: prng}, caseID); !cont {
+					return
+				}
+				r.Count("random_schedule_runs", 1)
+			}
+		}
 		// (b) PCT
-		for c := 0; c < kit.N(22, 160); c++ {
+		for c := 0; c < kit.N(50, 200); c++ {
 			caseID := fmt.Sprintf("pct:%v:s%d:%d", tx, shard, c)
 			if !kit.WantCase(caseID) {
 				continue
 			}
 			stream := uint64(shard*100000+c)*2 + b2u14(tx) + 2_000_000
 			rng := kit.NewRand(seed, stream)
-			pl := c14GenPlan(rng, c%3 == 2)
+			pl := c14GenPlan(rng, c%4 == 3)
 			tags := make([]string, pl.nclients)
 			for i := range tags {
 				tags[i] = fmt.Sprintf("k%d", i+1)
 			}
-			if _, cont := c14RunConcurrent(e, r, caseID, seed, stream, pl, kit.NewPCT(rng, tags, 3, pl.nclients*pl.perCl*7)); !cont {
+			var pol kit.Policy
+			switch c % 3 {
+			case 0:
+				pol = kit.NewPCT(rng, tags, 3, pl.nclients*pl.perCl*7)
+			case 1:
+				pol = kit.NewPCT(rng, tags, 12, pl.nclients*pl.perCl*7)
+			default:
+				pol = kit.RandomPolicy{Rng: rng}
+			}
+			if _, cont := c14RunConcurrent(e, r, caseID, seed, stream, pl, pol); !cont {
 				return
 			}
 		}
@@ -1801,7 +1838,10 @@ func c14RunScen(e *c14Env, r *kit.Result, seed int64, sc c14Scen, si int, pol ki
 	if s, ok := pol.(kit.Script); ok {
 		script = strings.Join(s.Choices, ".")
 	}
-	caseID := fmt.Sprintf("ex:%v:%d:%s", e.tx, si, script)
+	return c14RunScenID(e, r, seed, sc, si, pol, fmt.Sprintf("ex:%v:%d:%s", e.tx, si, script))
+}
+
+func c14RunScenID(e *c14Env, r *kit.Result, seed int64, sc c14Scen, si int, pol kit.Policy, caseID string) (kit.Schedule, bool) {
 	p := c14FreshPaths(1)[0]
 	cl := sc.clients(p)
 	pl := c14Plan{cfg: sc.cfg, paths: []string{p}, pre: sc.pre(p), nclients: len(cl), fixed: cl, pureCas: sc.pureCas, metaDel: true}
@@ -1816,7 +1856,7 @@ func TestVerif_C14_Free(t *testing.T) {
 	type flav struct{ tx, cache bool }
 	for fi, fl := range []flav{{false, false}, {true, false}, {false, true}} {
 		e := c14Boot(t, fl.tx, fl.cache)
-		for c := 0; c < kit.N(30, 400); c++ {
+		for c := 0; c < kit.N(90, 400); c++ {
 			caseID := fmt.Sprintf("free:%d:s%d:%d", fi, shard, c)
 			if !kit.WantCase(caseID) {
 				continue
